@@ -4,6 +4,7 @@ import PqV.Drv.Footer
 import PqV.Drv.Fs
 import PqV.Drv.Access
 import PqV.Drv.RowFilter
+import PqV.Drv.Stats
 /-
   `pqv` — line-protocol driver over the executable definitions of PqV (Spec, Impl, Gen).
   One request per line on stdin, one reply per line on stdout.  Pure per line.
@@ -24,6 +25,7 @@ def handleLine (line : String) : String :=
     | "ds" => handleDs op a
     | "access" => handleAccess op a
     | "rowfilter" => handleRowFilter op a
+    | "stats" => handleStats op a
     | _ => s!"err unknown-stream {stream}"
   | _ => "err bad-request"
 
